@@ -1,6 +1,38 @@
 import DeepModel.Driver.ExprProto
 import DeepModel.Model.Metric
+import DeepModel.Model.C17Prom
 open Lean Proto ExprProto Metric Extracted.Limiter Extracted.Expr
+
+/-! the Prometheus processor (`op = "prom"`): a sequence of plugin operations, then what a scrape shows -/
+def parsePromCall (j : Json) : Except String (String × C17Prom.Args) := do
+  let labels ← (← getArr j "labels").toList.mapM (fun kv => do
+    match kv with
+    | .arr #[.str k, .str v] => pure (k, v)
+    | _ => throw "label pair")
+  pure (← getStr j "m", ⟨← getStr j "name", labels, ← getOptStr j "ns", ← getOptStr j "help", ← getOptStr j "unit",
+                        ← getInt j "value"⟩)
+
+def clsName : Extracted.C17Prom.Cls → String
+  | .counter => "counter" | .gauge => "gauge" | .histogram => "histogram" | .summary => "summary"
+
+def outcomeName : C17Prom.Outcome → String
+  | .ok => "ok" | .ctorRaised => "ctorRaised" | .labelsRaised => "labelsRaised" | .notObservable => "notObservable"
+  | .opRaised => "opRaised"
+
+def familyJson (kf : String × C17Prom.Family) : Json :=
+  Json.mkObj [("key", Json.str kf.1), ("cls", Json.str (clsName kf.2.cls)), ("fullName", Json.str kf.2.fullName),
+    ("doc", Json.str kf.2.doc), ("labelNames", strs kf.2.labelNames),
+    ("children", Json.arr (kf.2.children.map (fun (lv, a) =>
+      Json.arr #[strs lv, toJson a.count, toJson a.sum])).toArray)]
+
+def promRun (calls : List (String × C17Prom.Args)) : Json :=
+  let r := C17Prom.run C17Prom.Plugin.empty calls
+  let outs := (calls.zip r.2).map (fun (c, o) => match o with
+    | none => Json.str "no-such-operation"
+    | some o => Json.arr #[Json.str (outcomeName o),
+        Json.bool (match Extracted.C17Prom.methods.lookup c.1 with | some m => C17Prom.propagates m o | none => false)])
+  Json.mkObj [("outcomes", Json.arr outs.toArray), ("families", Json.arr (r.1.cache.map familyJson).toArray),
+    ("afterClear", toJson (C17Prom.clear r.1).cache.length)]
 
 def parseLabel (j : Json) : Except String Label := do
   pure ⟨← getStr j "key", ← getOptStr j "static", ← getOptStr j "expr"⟩
@@ -34,6 +66,7 @@ def handle (j : Json) : Except String Json := do
   | "float" =>
     let o ← parseOutcome (← j.getObjVal? "o")
     pure (Json.mkObj [("repr", optStrJ (floatRepr o))])
+  | "prom" => pure (promRun (← (← getArr j "calls").toList.mapM parsePromCall))
   | "run" =>
     let cj ← j.getObjVal? "cfg"
     let act : ActionCtx.Cfg := ⟨⟨← getOptStr cj "fire_count", ← getOptStr cj "fire_period", ⟨0, 0⟩⟩,
